@@ -152,6 +152,11 @@ void *memset(void *s, int c, size_t n)
 #pragma CPROVER check disable "bounds"
 #pragma CPROVER check disable "pointer-overflow"
 #pragma CPROVER check disable "signed-overflow"
+    if ((n & 7) == 0 && (__CPROVER_POINTER_OFFSET(s) & 7) == 0) {
+      /* word-wise: keeps pointer-typed fields whole (byte stores into pointer fields of a structure confuse symex) */
+      unsigned long w8 = (unsigned char) c; w8 |= w8 << 8; w8 |= w8 << 16; w8 |= w8 << 32;
+      for (size_t i = 0; i < VP_MEM_K / 8 && 8 * i < n; i++) ((unsigned long *) s)[i] = w8;
+    } else
     for (size_t i = 0; i < VP_MEM_K && i < n; i++) ((char *) s)[i] = (char) c;
 #pragma CPROVER check pop
   } else if (n <= VP_MEM_BIG && (n & 7) == 0 && (__CPROVER_POINTER_OFFSET(s) & 7) == 0) {
